@@ -112,7 +112,9 @@ def mask_tensor(shape, seed=0):
 def cp_init(shape, rank, seed=0, weights="none", nonneg=False):
     facs = [V.generic((s, rank), seed + 31 + k, signed=not nonneg) + (0.1 if nonneg else 0.0) for k, s in enumerate(shape)]
     table = {"none": None, "ones": np.ones(rank), "positive": np.array([2.0, 0.5, 3.0][:rank]),
-             "negative": -np.array([2.0, 0.5, 3.0][:rank]), "mixed": np.array([2.0, -0.5, 3.0][:rank])}
+             "negative": -np.array([2.0, 0.5, 3.0][:rank]), "mixed": np.array([2.0, -0.5, 3.0][:rank]),
+             # some, not all, weights exactly one (tests written as "all(w == 1)" / "any(w != 1)" agree except here)
+             "partly-one": np.array([2.0, 1.0, 0.5][:rank]), "partly-one-first": np.array([1.0, 3.0, 1.0][:rank])}
     return table[weights], facs
 
 
